@@ -2264,7 +2264,12 @@ def eqn2_helpers(e, bitslice=False, widening=False):
                     cc[i:j] = e.op(p, e.r[i:j])
                 return cc.simplify(bitslice=bitslice)
         elif e.l._is_cst:
-            return e.op(e.l, e.r)
+            res = e.op(e.l, e.r)
+            if e.prop < 4 and res._is_cst:
+                # the folded constant keeps the signedness of the expression
+                # (not the sign of the python value it was computed from)
+                res.sf = e.sf
+            return res
     if e.l._is_vec:
         return vec([e.op(x, e.r) for x in e.l.l]).simplify(widening=widening)
     if e.r._is_vec:
